@@ -98,7 +98,7 @@ theorem C09_unknown (env : TypeEnv) (col : Column)
     (hpg : env.engine = "postgresql") (hov : env.overrides = [])
     (h : lookupArm Gen.pgTypeArms col.dataType = none)
     (hno : ∀ p, parseRel col.dataType = some p →
-      pgFallbackTypes env (if p.1 == "" then env.defaultSchema else p.1) p.2 (col.notNull || col.isArray) env.schemas = none) :
+      pgFallbackTypes env.defaultSchema env.rename (if p.1 == "" then env.defaultSchema else p.1) p.2 (col.notNull || col.isArray) env.schemas = none) :
     goType env col = if col.isArray then "[]interface{}" else "interface{}" := by
   unfold goType columnOverride goInnerType dbTypeOverride postgresType
   simp only [hov, hpg, h, List.find?_nil, Option.map_none, array_prefix_documented]
